@@ -155,8 +155,10 @@ def run(ctx):
     # =============================================================== D1 header size, five sites
     ctx.clause = 'D1'
     mk = ctx.func(B + '._make_header')
-    r, I = ctx.run(mk, no_inline=(RU + 'format_header_line',))
-    writes = [e for e in ctx.calls(I, name='.write')]
+    # (format_header_line is analysed through its body: a card is 80 columns whether the padding is applied by the formatter,
+    #  by the writer, or by both)
+    r, I = ctx.run(mk)
+    writes = [e for e in ctx.calls(I, name='.write') if e.owner == mk.short]
     ctx.require(writes, '_make_header no longer writes to the file object')
     pads = [e for e in writes if mentions(e.data['args'][1], lambda a: a.kind == 'call' and a.args[0] == 'bytearray')]
     cards = [e for e in writes if e not in pads]
@@ -164,7 +166,23 @@ def run(ctx):
     # cards: every non-pad write is an 80-column formatted string
     for e in cards:
         arg = e.data['args'][1]
-        ok = mentions(arg, lambda a: a.kind == 'call' and a.args[0] == 'fmt' and a.args[1][1].key == lift('<80').key)
+        # the outermost formatting step of every alternative of the value is `:<80`, or the value is an 80-byte constant
+        def padded80(t):
+            a = t.single_atom()
+            if a is None:
+                return False
+            if a.kind == 'bytes':
+                return len(a.args[0]) == 80
+            if a.kind == 'str':
+                return len(a.args[0]) == 80
+            if a.kind == 'ite':
+                return padded80(a.args[1]) and padded80(a.args[2])
+            if a.kind == 'call' and a.args[0] in ('.encode', 'fstr') and len(a.args[1]) == 1:
+                return padded80(a.args[1][0])
+            if a.kind == 'call' and a.args[0] == 'fmt' and len(a.args[1]) == 2:
+                return a.args[1][1].key == lift('<80').key
+            return False
+        ok = padded80(arg)
         ctx.ob('FORMULA', 'every card is written left-justified in 80 columns', mk, ok, {'arg': pretty(arg)[:200]}, node=e.node)
     for e in pads:
         arg = e.data['args'][1]
@@ -208,7 +226,12 @@ def run(ctx):
         cand = []
         for e in I.events:
             # the quantity is defined by its USE: the size argument of the file reads of this function
-            if e.kind == 'call' and e.data.get('name') == '.read' and e.owner == fi.short and not e.loops:
+            # (skipping the header by reading it or by seeking past it; the read of a whole block may sit in a
+            #  loop or in an `iter(lambda: f.read(n), b'')` sentinel iteration)
+            if e.kind == 'call' and e.data.get('name') in ('.read', '.seek') and e.owner == fi.short and \
+                    (not e.loops or e.data.get('name') == '.read'):
+                if e.loops and not any(True for _ in e.data['args'][1:]):
+                    continue
                 for a in e.data['args'][1:]:
                     v = Term({m: c for m, c in a.p.items() if 'BLOCSIZE' not in T._mkey(m)})
                     if len_atom(v) and not v.is_zero():
@@ -401,7 +424,8 @@ def run(ctx):
         ctx.formula('FORMULA', 'PKTIDX step == samples_per_block', mk, adv[0].data['rhs'],
                     ctx.spec(mk, 'self.samples_per_block'), node=adv[0].node)
     writes = ctx.calls(I, name='.write')
-    endw = [e for e in writes if mentions(e.data['args'][1], lambda a: a.kind == 'str' and a.args[0] == 'END')]
+    endw = [e for e in writes if mentions(e.data['args'][1], lambda a: (a.kind == 'str' and a.args[0] == 'END') or
+                                          (a.kind in ('bytes', 'str') and a.args[0] in (b'END' + b' ' * 77, 'END' + ' ' * 77)))]
     pads = [e for e in writes if mentions(e.data['args'][1], lambda a: a.kind == 'call' and a.args[0] == 'bytearray')]
     loopw = [e for e in writes if e.loops]
     ok = len(endw) == 1 and not endw[0].loops and all(e.seq < endw[0].seq for e in loopw) and \
